@@ -36,12 +36,20 @@ BagEq(a, b) == Len(a) = Len(b) /\ \A i \in 1..Len(a) : Occ(a, a[i]) = Occ(b, a[i
 UsersRows == Units \X {0, 1}
 OrdersRows == Units \X {0, 1} \X {0, 1, 2, NULL}
 PubRows == {0, 1} \X {1, 2}
-UniqueIds(d) == \A i, j \in 1..Len(d.users) : i # j => d.users[i][1] # d.users[j][1]
+\* a two-step chain: items(aid, z) -> accounts(aid unique, uid) -> users(id)
+AccountsRows == (0..2) \X Units
+ItemsRows == (0..2) \X {0, 1}
+Tables == {"users", "orders", "pub", "accounts", "items"}
+UniqueIds(d) == /\ \A i, j \in 1..Len(d.users) : i # j => d.users[i][1] # d.users[j][1]
+                /\ \A i, j \in 1..Len(d.accounts) : i # j => d.accounts[i][1] # d.accounts[j][1]
 
 \* the database restricted to unit u: protected rows not owned by u are deleted, public tables are kept
 RestrictTo(d, u) == [users |-> SelectSeq(d.users, LAMBDA r : r[1] = u),
                    orders |-> SelectSeq(d.orders, LAMBDA r : r[1] = u),
-                   pub |-> d.pub]
+                   pub |-> d.pub,
+                   accounts |-> SelectSeq(d.accounts, LAMBDA r : r[2] = u),
+                   \* an item belongs to the unit of its account (items of unknown accounts belong to nobody)
+                   items |-> SelectSeq(d.items, LAMBDA r : \E a \in 1..Len(d.accounts) : d.accounts[a][1] = r[1] /\ d.accounts[a][2] = u)]
 
 (* ---- tracked relations -------------------------------------------------------- *)
 T(pu, w, vals) == [pu |-> pu, w |-> w, vals |-> vals]
@@ -53,6 +61,14 @@ TrackOrders(d, pudef) ==
              ord == SetToSortSeq(pairs, LAMBDA x, y : x[2] < y[2] \/ (x[2] = y[2] /\ x[1] < y[1]))
          IN SeqMap(ord, LAMBDA p : T(d.users[p[1]][1], 1, d.orders[p[2]]))
 TrackUsers(d) == SeqMap(d.users, LAMBDA r : T(r[1], 1, r))
+\* items with their privacy unit: `direct` joins accounts and reads uid (one step); `path` goes on to users (two steps:
+\* items.aid -> accounts.aid, accounts.uid -> users.id), every step an inner join
+TrackItems(d, pudef) ==
+    LET pairs == { p \in (1..Len(d.items)) \X (1..Len(d.accounts)) :
+                     /\ d.items[p[1]][1] = d.accounts[p[2]][1]
+                     /\ (pudef = "path" => \E k \in 1..Len(d.users) : d.users[k][1] = d.accounts[p[2]][2]) }
+        ord == SetToSortSeq(pairs, LAMBDA x, y : x[1] < y[1] \/ (x[1] = y[1] /\ x[2] < y[2]))
+    IN SeqMap(ord, LAMBDA p : T(d.accounts[p[2]][2], 1, d.items[p[1]]))
 Published(d) == SeqMap(d.pub, LAMBDA r : T(NULL, NULL, r))     \* no unit: a published relation
 
 \* WHERE on the i-th value (> 0, NULL does not pass), projection keeps everything
@@ -90,7 +106,7 @@ JoinT(kind, L, R, i, j, both, nl, nr, unitOf) ==
 
 (* ---- the query shapes ----------------------------------------------------------- *)
 Kinds == {"inner", "left", "right", "full"}
-Shapes == { [s |-> "map"], [s |-> "filter"], [s |-> "reduce"], [s |-> "union"] }
+Shapes == { [s |-> "map"], [s |-> "filter"], [s |-> "reduce"], [s |-> "union"], [s |-> "items_map"] }
           \cup { [s |-> sh, kind |-> k] : sh \in {"orders_pub", "pub_orders", "orders_users", "orders_users_k", "reduce_pub"}, k \in Kinds }
 PuDefs == {"direct", "path"}
 
@@ -101,6 +117,7 @@ Eval(q, pudef, d) ==
       [] q.s = "filter"  -> FilterT(O, 3)
       [] q.s = "reduce"  -> ReduceT(O, 2, 3)
       [] q.s = "union"   -> O \o FilterT(O, 3)
+      [] q.s = "items_map" -> TrackItems(d, pudef)
       [] q.s = "orders_pub"   -> JoinT(q.kind, O, Published(d), 2, 1, FALSE, 3, 2, "left")
       [] q.s = "pub_orders"   -> JoinT(q.kind, Published(d), O, 1, 2, FALSE, 2, 3, "right")
       [] q.s = "orders_users" -> JoinT(q.kind, O, TrackUsers(d), 1, 1, TRUE, 3, 2, "left")
@@ -112,13 +129,13 @@ Eval(q, pudef, d) ==
 (* ---- state machine: build a database, pick a shape ------------------------------- *)
 VARIABLES db, target, q, pudef
 vars == <<db, target, q, pudef>>
-Init == /\ db = [users |-> << >>, orders |-> << >>, pub |-> << >>]
-        /\ target \in [{"users", "orders", "pub"} -> 0..MaxRows]
+Init == /\ db = [users |-> << >>, orders |-> << >>, pub |-> << >>, accounts |-> << >>, items |-> << >>]
+        /\ target \in [Tables -> 0..MaxRows]
         /\ q = [s |-> "none"] /\ pudef \in PuDefs
-Full == \A t \in {"users", "orders", "pub"} : Len(db[t]) = target[t]
-RowsFor(t) == IF t = "users" THEN UsersRows ELSE IF t = "orders" THEN OrdersRows ELSE PubRows
+Full == \A t \in Tables : Len(db[t]) = target[t]
+RowsFor(t) == CASE t = "users" -> UsersRows [] t = "orders" -> OrdersRows [] t = "accounts" -> AccountsRows [] t = "items" -> ItemsRows [] OTHER -> PubRows
 InsertRow == /\ q.s = "none" /\ ~Full
-             /\ \E t \in {"users", "orders", "pub"} :
+             /\ \E t \in Tables :
                    /\ Len(db[t]) < target[t]
                    /\ \E r \in Pick({ x \in RowsFor(t) : UniqueIds([db EXCEPT ![t] = Append(@, x)]) }) :
                          db' = [db EXCEPT ![t] = Append(@, r)]
@@ -136,7 +153,7 @@ PuNonNull == \A i \in 1..Len(Res) : Res[i].pu # NULL /\ Res[i].w # NULL
 Locality == \A u \in Units : BagEq(SelectSeq(Res, LAMBDA r : r.pu = u), Eval(q, pudef, RestrictTo(db, u)))
 \* what the model predicts for the case (the model mirrors the code: outer joins whose preserved side is
 \* not the tracked side leave rows without a unit)
-Safe(x) == x.s \in {"map", "filter", "reduce", "union"}
+Safe(x) == x.s \in {"map", "filter", "reduce", "union", "items_map"}
            \/ (x.s \in {"orders_pub", "reduce_pub"} /\ x.kind \in {"inner", "left"})
            \/ (x.s = "pub_orders" /\ x.kind \in {"inner", "right"})
            \/ (x.s \in {"orders_users", "orders_users_k"} /\ x.kind = "inner")
